@@ -217,7 +217,12 @@ func c17Css(s *c17Scn, line []byte, out *drv.Out) {
 			parts = append(parts, c17CSS(f))
 		}
 	}
+	// variant 2: the border box of the specification is made of a content box, paddings and borders (percentages of
+	// translate() and of transform-origin refer to the border box)
 	style := fmt.Sprintf("width:%dpx;height:%dpx;margin:%dpx 0 0 %dpx;transform:%s", s.Box[2], s.Box[3], s.Box[1], s.Box[0], strings.Join(parts, " "))
+	if out.Cur%3 == 2 && s.Box[2] > 12 && s.Box[3] > 8 {
+		style = fmt.Sprintf("width:%dpx;height:%dpx;padding:2px 4px;border:solid;border-width:1px 2px;margin:%dpx 0 0 %dpx;transform:%s", s.Box[2]-12, s.Box[3]-6, s.Box[1], s.Box[0], strings.Join(parts, " "))
+	}
 	if s.Origin != "" {
 		style += ";transform-origin:" + s.Origin
 	}
@@ -363,6 +368,27 @@ func c17Algebra(s *c17Scn, line []byte, out *drv.Out) {
 		}
 		if !matNear(g, s.Adj, 1e-4) {
 			bad("Invert", g, s.Adj)
+		}
+	}
+	// the inverse law does not depend on the magnitude of the entries: the same matrix with its linear part scaled by a power
+	// of two (exact in floating point) is invertible iff Det # 0, and the result is a two-sided inverse
+	for _, k := range []float32{1.0 / 4096, 1024} {
+		Tk := matrix.New(T.A*k, T.B*k, T.C*k, T.D*k, T.E, T.F)
+		inv := Tk
+		err := inv.Invert()
+		if s.Det == 0 {
+			if err == nil {
+				bad("Invert-singular-accepted:scaled", tf(inv), s.Adj)
+			}
+			continue
+		}
+		if err != nil {
+			bad("Invert-regular-rejected:scaled", []float64{float64(k)}, s.Adj)
+			continue
+		}
+		id := []int{1, 0, 0, 1, 0, 0}
+		if l, r := tf(matrix.Mul(Tk, inv)), tf(matrix.Mul(inv, Tk)); !matNear(l, id, 1e-3) || !matNear(r, id, 1e-3) {
+			bad("Invert:scaled", append(l, r...), id)
 		}
 	}
 	m = T
